@@ -45,12 +45,30 @@ def snap(sx, m, probes):
         fields = [(k, id(v)) for k, v in ti.items()]
         flat = list(m.get_flat_type_info(m).keys())
     verdict = None
-    if issubclass(m, (Integer, Decimal)):
+    if not probes:
+        pass
+    elif issubclass(m, (Integer, Decimal)):
         verdict = m.validate_native(m, probes['int'])
     elif issubclass(m, Unicode):
         verdict = sx.And(m.validate_string(m, probes['str']), m.validate_native(m, probes['str']))
     return {'attrs': at, 'fields': fields, 'flat': flat, 'tn': m.__type_name__, 'ns': m.__namespace__,
             'verdict': verdict, 'keep': list(ti.values()) if fields is not None else None}
+
+
+def unchanged_except(sx, base, new, allowed):
+    """condition: the derived type differs from the type it was derived from in the allowed public attributes only"""
+    a, b = dict(snap(sx, base, {})['attrs']), dict(snap(sx, new, {})['attrs'])
+    conds = []
+    for k in sorted(set(a) | set(b)):
+        if k in allowed:
+            continue
+        conds.append(same(sx, a[k], b[k]) if (k in a and k in b) else False)
+    return sx.And(*conds) if conds else True
+
+
+# attributes that legitimately move together with a requested one
+FOLLOWERS = {'pk': {'primary_key', 'sqla_column_args'}, 'server_default': {'sqla_column_args'}, 'pattern': {'unicode_pattern'}}
+BOOKKEEPING = {'translations', 'sqla_column_args', 'type_name'}
 
 
 def same(sx, a, b):
@@ -110,7 +128,7 @@ def fresh_pool():
         __namespace__ = 'tns'
         x1 = Unicode
 
-    pool = {'P': Integer32(ge=0, min_occurs=1), 'U': Unicode(max_len=8), 'C': C, 'O': O, 'S': S, 'A': Array(C),
+    pool = {'P': Integer32(ge=0, min_occurs=1), 'U': Unicode(max_len=8, min_len=2), 'C': C, 'O': O, 'S': S, 'A': Array(C),
             'V': C.customize(nillable=False), 'X': X}
     return pool
 
@@ -174,6 +192,12 @@ def apply_op(sx, pool, i, kind, preset=None):
                 chk.append(new.Attributes.sqla_column_args[-1].get('server_default') == 'x')
             else:
                 chk.append(sx.eq(getattr(new.Attributes, k), v))
+        # ... and nothing that was not asked for changes (an unrelated facet of the base - the length limit of the text
+        # form of a number, say - is inherited)
+        allowed = set(kw) | BOOKKEEPING
+        for k in kw:
+            allowed |= FOLLOWERS.get(k, set())
+        chk.append(unchanged_except(sx, base, new, allowed))
         if issubclass(new, Unicode) and 'str' in PROBES:
             # what the derived type enforces is what its attributes say (length facets, whole-string pattern): a facet that
             # was lifted or replaced no longer decides
@@ -216,7 +240,13 @@ def apply_op(sx, pool, i, kind, preset=None):
         # Mandatory() is a customize(): the new variant inherits what its base still has pending
         PENDING[id(new)] = dict((f, dict(a)) for f, a in PENDING.get(id(pool[t]), {}).items())
         PENDING_ALL[id(new)] = dict(PENDING_ALL.get(id(pool[t]), {}))
-        return ('Mandatory(%s)' % t, set(), new, [new.Attributes.min_occurs == 1, new.Attributes.nillable is False])
+        chk = [new.Attributes.min_occurs == 1, new.Attributes.nillable is False]
+        chk.append(unchanged_except(sx, pool[t], new, {'min_occurs', 'nillable', 'min_len'} | BOOKKEEPING))
+        if issubclass(new, Unicode):
+            # mandatory text is not empty - and a stricter lower bound of the base stays
+            bl = pool[t].Attributes.min_len
+            chk.append(sx.eq(new.Attributes.min_len, bl if (bl >= 1) is True or bool(bl >= 1) else 1))
+        return ('Mandatory(%s)' % t, set(), new, chk)
     if kind == 'subclass':
         t = pick(sx, 't%d' % i, [n for n in names if issubclass(pool[n], ComplexModel.__mro__[1]) and not issubclass(pool[n], Array)
                                   and getattr(pool[n], '__orig__', None) is None], preset)
@@ -286,7 +316,9 @@ def _run_history(sx, kinds, preset=None):
     PROBES.clear()
     PROBES.update(probes)
     snaps = {n: snap(sx, m, probes) for n, m in pool.items()}
-    ok = [list(pool['X'].get_flat_type_info(pool['X']).keys()) == MIXIN_ORDER]
+    ok = [list(pool['X'].get_flat_type_info(pool['X']).keys()) == MIXIN_ORDER,
+          # building the pool derived P from Integer32: what was not asked for is Integer32's
+          sx.eq(pool['P'].Attributes.max_str_len, Integer32.Attributes.max_str_len)]
     desc = []
     for i, kind in enumerate(kinds):
         d, changed, new, chk = apply_op(sx, pool, i, kind, preset if i == 0 else None)
